@@ -153,15 +153,65 @@ def udp_caught(path):
     raise LookupError('datagram_received not found')
 
 
+# classes that can come out of `await reader.readexactly(n)` (lean/NdnModel/StreamReader.lean : RdErr)
+STREAM_ALL = ['incompleteRead', 'connectionReset', 'other']
+STREAM_CLASS_MAP = {
+    'IncompleteReadError': ['incompleteRead'], 'EOFError': ['incompleteRead'],
+    'ConnectionResetError': ['connectionReset'], 'ConnectionError': ['connectionReset'],
+    'OSError': ['connectionReset', 'other'], 'IOError': ['connectionReset', 'other'],
+    'EnvironmentError': ['connectionReset', 'other'],
+    'Exception': STREAM_ALL, 'BaseException': STREAM_ALL,
+}
+
+
+def stream_caught(path):
+    """classes named by the `except` clause(s) of the `try` in StreamFace.run that protects the framing reads
+    (read_tl_num_from_stream / readexactly) AND whose handler ends the loop through `self.shutdown()` (or
+    `self.running = False`); a handler that does neither does not end the task and is not counted"""
+    tree = ast.parse(open(path).read())
+    run = _func(tree, 'StreamFace', 'run')
+    found = []
+    for s in run.body:
+        _walk(s, [run], found)
+    tries = []
+    for name, node, tr, ifs in found:
+        if name in ('read_tl_num_from_stream', 'readexactly') and tr is not None and tr not in tries:
+            tries.append(tr)
+    # every framing read must sit in the same try
+    reads = [(name, tr) for name, node, tr, ifs in found if name in ('read_tl_num_from_stream', 'readexactly')]
+    if not reads or any(tr is None for _, tr in reads) or len(tries) != 1:
+        return []
+    out = []
+    for h in tries[0].handlers:
+        ends = any((isinstance(n, ast.Call) and _callee(n) == 'shutdown') or
+                   (isinstance(n, ast.Assign) and any(isinstance(t, ast.Attribute) and t.attr == 'running' for t in n.targets)
+                    and isinstance(n.value, ast.Constant) and n.value.value is False)
+                   for b in h.body for n in ast.walk(b))
+        if not ends:
+            continue
+        if h.type is None:
+            out += STREAM_ALL
+            continue
+        ts = h.type.elts if isinstance(h.type, ast.Tuple) else [h.type]
+        for t in ts:
+            out += STREAM_CLASS_MAP.get(_cls_name(t), [])
+    res = []
+    for x in out:
+        if x not in res:
+            res.append(x)
+    return res
+
+
 def lean_list(xs):
     return '[' + ', '.join('.' + x for x in xs) + ']'
 
 
 def generate(repo, consts):
     src = os.path.join(repo, 'src', 'ndn')
-    out = ['import NdnModel.Receive',
+    out = ['import NdnModel.Receive', 'import NdnModel.StreamReader',
            '/- GENERATED by harness/props/c06_extract.py from src/ndn/appv2.py, src/ndn/app.py, '
-           'src/ndn/transport/udp_face.py (ast) and the live TypeNumber/LpTypeNumber constants. Do not edit. -/',
+           'src/ndn/transport/udp_face.py, src/ndn/transport/stream_face.py (ast) and the live TypeNumber/LpTypeNumber '
+           'constants. Do not edit. -/',
            'namespace Ndn.Gen.C06', 'open Ndn Ndn.Recv', '']
     for tag, f, attr in (('v2', 'appv2.py', '_pit'), ('v1', 'app.py', '_int_tree')):
         g = guards_of(os.path.join(src, f), attr)
@@ -176,5 +226,7 @@ def generate(repo, consts):
         out.append(f"  nackByDigest := {'true' if g['nackByDigest'] else 'false'}")
         out.append('')
     out.append(f"def udpCaught : List PyErr := {lean_list(udp_caught(os.path.join(src, 'transport', 'udp_face.py')))}")
+    sc = stream_caught(os.path.join(src, 'transport', 'stream_face.py'))
+    out.append('def streamCaught : List Ndn.StreamReader.RdErr := ' + lean_list(sc))
     out += ['', 'end Ndn.Gen.C06', '']
     return '\n'.join(out)
